@@ -29,7 +29,7 @@ def main(prop, path):
     for flavor, case in cases:
         flavors = [flavor] if flavor in ("sync", "async") else ["sync", "async"]
         for fl in flavors:
-            st, obs = core._impl_worker((fl, case, 20))
+            st, obs = core.impl_isolated((fl, case, 20))
             probs = props.run_oracles(prop, case, st, obs, fl, replay=True)
             print(f"[{fl}] impl status={st} monitor problems={json.dumps(probs)[:1500]}")
             if probs:
